@@ -709,7 +709,8 @@ class EvolutionSuperOperator(SuperOperator, TimeDependent, Saveable):
         if time is not None:
             ti, dt = self.time.locate(time)
 
-            return SuperOperator(data=self.data[ti, :, :, :, :])
+            # (a copy: the returned object is basis managed on its own)
+            return SuperOperator(data=numpy.array(self.data[ti, :, :, :, :]))
         else:
             return SuperOperator(data=self.data)
 
